@@ -1,4 +1,6 @@
 import Martian.Lemmas.HarLog
+import Martian.Props.C17.Faults
+import Martian.Props.C17.Conc
 /-!
 C17 — The HAR log returns every exchange once, in arrival order, across any history.
 
@@ -7,6 +9,11 @@ pointer-level model (ring + index map, `Model/HarLog.lean`) executed on the hist
 `Spec.run`, `logAfter` are the list specification.  An entry is identified by the index of the
 operation that recorded its request (`rq`); `rs` is the index of the operation that recorded the
 attached response.  Quantifiers: every history (any length, any IDs), every reachable heap.
+
+This file: histories of critical sections (`Op`; `Op.idle` = a call that returned before taking
+the lock).  `Props/C17/Faults.lean`: the API level (options, `NewRequest`/`NewResponse` failure
+paths) and the same theorems for histories of API calls.  `Props/C17/Conc.lean`: the regenerated
+lock-discipline fact and linearisability of concurrent executions.
 -/
 namespace Martian.Props.C17
 open Martian Martian.HarLog
